@@ -2,6 +2,7 @@ package bits
 
 import (
 	"encoding/binary"
+	"errors"
 	"fmt"
 	"regexp"
 	"strings"
@@ -37,6 +38,24 @@ func (bA *BitArray) Size() int {
 		return 0
 	}
 	return bA.Bits
+}
+
+// ValidateBasic checks that the number of elements is the one needed for the
+// number of bits. A BitArray received from a peer (see FromProto) carries the
+// two independently; all methods rely on them being consistent.
+func (bA *BitArray) ValidateBasic() error {
+	if bA == nil {
+		return nil
+	}
+	bA.mtx.Lock()
+	defer bA.mtx.Unlock()
+	if bA.Bits < 0 {
+		return errors.New("negative Bits")
+	}
+	if expected := (bA.Bits + 63) / 64; len(bA.Elems) != expected {
+		return fmt.Errorf("expected %d Elems for %d Bits, got %d", expected, bA.Bits, len(bA.Elems))
+	}
+	return nil
 }
 
 // GetIndex returns the bit at index i within the bit array.
